@@ -48,7 +48,9 @@ pub mod c05;
 pub mod c06;
 pub mod c07;
 pub mod c10;
+pub mod c11;
 pub mod c20;
+pub mod subs;
 pub mod work;
 
 pub const SCHEMA: &str = r#"
@@ -76,6 +78,7 @@ pub struct Node {
     /// clear requests emitted by the agent, not yet handed to the clear loop
     pub pending_clears: Vec<(ActorId, RangeInclusive<CrsqlDbVersion>)>,
     pub tripwire_tx: mpsc::Sender<()>,
+    pub tripwire: Tripwire,
     // kept alive so senders inside the agent do not error
     _keep: (
         CorroReceiver<klukai_types::broadcast::FocaInput>,
@@ -191,6 +194,7 @@ pub async fn new_node_in(idx: usize, dir: tempfile::TempDir, opts: NodeOpts) -> 
         clear_forwarded: 0,
         pending_clears: vec![],
         tripwire_tx,
+        tripwire,
         _keep: (rx_foca, rtt_rx, api_listeners),
         conf,
     })
